@@ -287,4 +287,47 @@ class RunC(RtContract):
             yield f'no other way out ({how}: {st.exc})', BoolVal(False)
 
 
+def _bounded_run(self, cx):
+    """packrat witness family on the real generated module: evaluations per (rule, position) counted by inline python"""
+    from sourcer import Grammar
+    import sys
+    bad, tried = [], 0
+    log = []
+    hdr = 'grammar verif_c07_witness\n' if cx.uses_context else ''
+    sys.modules.pop('verif_c07_witness', None)
+    g = Grammar(hdr + '```\nLOG = []\ndef tick(name, pos):\n    LOG.append((name, pos))\n    return None\n```\n'
+                'start = (Item* << "x") | (Item* << "y") | [Expect(Item*), Item*, "z"]\n'
+                'Item = `tick("Item", _pos)` >> /a/\n'
+                'Deep = "(" >> Deep << ")" << "+" | "(" >> Deep << ")" << "-" | "(" >> Deep << ")" | `tick("Deep0", _pos)` >> "0"\n')
+    for n in (0, 7, 300, 70000):
+        for tail in ('x', 'y', 'z'):
+            tried += 1
+            del g.LOG[:]
+            try:
+                g.parse('a' * n + tail)
+            except Exception as e:
+                bad.append({'input': f"'a'*{n}+{tail!r}", 'raised': repr(e)[:100]})
+                continue
+            from collections import Counter
+            c = Counter(g.LOG)
+            worst = max(c.values()) if c else 0
+            if worst > 1 or len(g.LOG) > 2 * (n + 2):
+                bad.append({'input': f"'a'*{n}+{tail!r}", 'max_evaluations_of_one_rule_at_one_position': worst, 'evaluations': len(g.LOG), 'bound': n + 2})
+    for depth in (3, 12, 18):
+        tried += 1
+        del g.LOG[:]
+        text = '(' * depth + '0' + ')' * depth
+        try:
+            g.Deep.parse(text)
+        except Exception as e:
+            bad.append({'input': text, 'raised': repr(e)[:100]})
+            continue
+        from collections import Counter
+        c = Counter(g.LOG)
+        if c and max(c.values()) > 1:
+            bad.append({'input': text, 'max_evaluations_of_one_rule_at_one_position': max(c.values())})
+    return bad, tried, "witness family: 'a'*n + tail for n in {0, 7, 300, 70000}, exponential family '('*d+'0'+')'*d for d in {3, 12, 18}"
+
+
+RunC.bounded = _bounded_run
 RUN = [RunC()]
